@@ -18,7 +18,7 @@ type inclusionLine struct {
 
 type inclusionLineSlice []inclusionLine
 
-type inclusionLineMap map[string]inclusionLine
+type inclusionLineMap map[string][]inclusionLine
 
 func (h inclusionLineSlice) Less(i, j int) bool {
 	return h[i].order < h[j].order
@@ -47,8 +47,8 @@ func buildIncludeExceptString(parser *Parser, parsedLine ParsedLine) (string, er
 	removeExclusions(parser, parsedLine.excludeFileNames, includeMap, definitions)
 
 	inclusionLines := make(inclusionLineSlice, 0, len(includeMap))
-	for _, value := range includeMap {
-		inclusionLines = append(inclusionLines, value)
+	for _, values := range includeMap {
+		inclusionLines = append(inclusionLines, values...)
 	}
 
 	contentWithoutExclusions := stringFromInclusionLines(inclusionLines)
@@ -101,7 +101,7 @@ func sortedKeys(m map[string]string) []string {
 	return keys
 }
 
-func removeExclusions(parser *Parser, excludeFileNames []string, includeMap map[string]inclusionLine, definitions map[string]string) {
+func removeExclusions(parser *Parser, excludeFileNames []string, includeMap inclusionLineMap, definitions map[string]string) {
 	for _, fileName := range excludeFileNames {
 		logger.Debug().Msgf("Processing exclusions from %s", fileName)
 		excludeContent, _ := parseFile(parser, fileName, definitions)
@@ -123,7 +123,9 @@ func buildinclusionLineMap(parser *Parser, includeFileName string) (inclusionLin
 	index := 0
 	for includeScanner.Scan() {
 		entry := includeScanner.Text()
-		includeMap[entry] = inclusionLine{entry, index}
+		// the same line can occur several times (e.g., the markers of the assemble
+		// block of an include file with prefixes or suffixes), keep every position
+		includeMap[entry] = append(includeMap[entry], inclusionLine{entry, index})
 		index++
 	}
 	return includeMap, definitions
